@@ -140,7 +140,7 @@ def inject(rng, prog):
         elif choice == "enum_empty":
             d = rng.choice(enums); d["enumerators"] = []; d["unchecked"] = False
         elif choice == "fields_under":
-            d = rng.choice([e for e in enums if e["underlying"] and e["enumerators"]]); d["enumerators"][0]["fields"] = [{"name": "zz", "tag": None, "attrs": [], "stream": False, "type": prim("int32")}]
+            d = rng.choice([e for e in enums if e["underlying"] and e["enumerators"]]); d["enumerators"][rng.randrange(len(d["enumerators"]))]["fields"] = rng.choice([[{"name": "zz", "tag": None, "attrs": [], "stream": False, "type": prim("int32")}], []])   # also an empty list: B()
         elif choice == "compact_under":
             d = rng.choice([e for e in enums if e["underlying"]]); d["compact"] = True; d["unchecked"] = False
         elif choice == "compact_unchecked":
@@ -184,7 +184,7 @@ def inject(rng, prog):
             d = rng.choice(aliases); d["type"]["opt"] = True
         elif choice in ("tag_range", "tag_edge_ok"):
             d, ms, _ = rng.choice([x for x in lists if x[1] and not x[0].get("compact")]); m = rng.choice(ms)
-            m["tag"] = rng.choice([-1, 2**31, 2**32 + 1] if choice == "tag_range" else [0, 2**31 - 1]); m["type"]["opt"] = True; m["stream"] = False
+            m["tag"] = rng.choice([-1, 2**31, 2**32 + 1, 2**63, 2**64, 2**64 + 5, -(2**65) + 1, 2**96 + 7, -(2**31)] if choice == "tag_range" else [0, 2**31 - 1]); m["type"]["opt"] = True; m["stream"] = False
         elif choice == "tuple_small":
             d = rng.choice([i for i in ifaces if i["ops"]]); o = rng.choice(d["ops"]); o["returns"] = o["returns"][:rng.choice([0, 1])]; o["tuple"] = True
         elif choice == "redef_top":
